@@ -793,10 +793,10 @@ theorem cl_resume_sec {s : State} {t : T} (h : Shape s t) (c : CoSt) : cl_CoSec 
   | pages p =>
     refine ⟨LinkBag.ParKeeps.refl s, fun hi hc hl _ _ => ⟨t, [], Ext.refl h, Le.refl s, hl, ?_,
       cl_CoLinks.of_ptrEq (PtrEq.refl s) ⟨rfl, rfl, rfl, rfl⟩ ?_⟩⟩
-    · by_cases ho : (pagesResume (s.trie.size + p.prefixes.length + 2) s p).2 = .yielded
+    · by_cases ho : (pagesResume ((s.trie.size + 1) * (p.prefixes.length + 1)) s p).2 = .yielded
       · rw [resume_pages_yielded s p ho]; trivial
       · rw [resume_pages_stopped s p ho]; trivial
-    · by_cases ho : (pagesResume (s.trie.size + p.prefixes.length + 2) s p).2 = .yielded
+    · by_cases ho : (pagesResume ((s.trie.size + 1) * (p.prefixes.length + 1)) s p).2 = .yielded
       · rw [resume_pages_yielded s p ho]; exact ⟨rfl, rfl, rfl, rfl⟩
       · rw [resume_pages_stopped s p ho]; exact ⟨rfl, rfl, rfl, rfl⟩
   | net n =>
